@@ -50,6 +50,18 @@ pub mod stubs {
     pub fn min(a: m128, b: m128) -> m128 { let (a, b) = (a.to_array(), b.to_array()); let f = |i: usize| if a[i] < b[i] { a[i] } else { b[i] }; m128::from_array([f(0), f(1), f(2), f(3)]) }
     pub fn maxd(a: m128d, b: m128d) -> m128d { let (a, b) = (a.to_array(), b.to_array()); let f = |i: usize| if a[i] > b[i] { a[i] } else { b[i] }; m128d::from_array([f(0), f(1)]) }
     pub fn mind(a: m128d, b: m128d) -> m128d { let (a, b) = (a.to_array(), b.to_array()); let f = |i: usize| if a[i] < b[i] { a[i] } else { b[i] }; m128d::from_array([f(0), f(1)]) }
+    // lane-wise IEEE arithmetic (ADDPS/SUBPS/MULPS/DIVPS): Kani does not model float SIMD arithmetic (it applies an integer
+    // overflow check to it and assumes the result away), so these primitives are stubbed by their contract as well
+    macro_rules! arith128 {
+        ($n:ident, $nd:ident, $op:tt) => {
+            pub fn $n(a: m128, b: m128) -> m128 { let (a, b) = (a.to_array(), b.to_array()); m128::from_array([a[0] $op b[0], a[1] $op b[1], a[2] $op b[2], a[3] $op b[3]]) }
+            pub fn $nd(a: m128d, b: m128d) -> m128d { let (a, b) = (a.to_array(), b.to_array()); m128d::from_array([a[0] $op b[0], a[1] $op b[1]]) }
+        };
+    }
+    arith128!(add, addd, +);
+    arith128!(sub, subd, -);
+    arith128!(mul, muld, *);
+    arith128!(div, divd, /);
     /// stand-in for the lane-wise square root: ANY lane-wise function will do for the structural contract W9
     pub fn root(x: f32) -> f32 { x * 0.5 + 1.0 }
     pub fn sqrt(a: m128) -> m128 { let a = a.to_array(); m128::from_array([root(a[0]), root(a[1]), root(a[2]), root(a[3])]) }
@@ -168,26 +180,64 @@ harnesses! { REG_W, "C17", "c17";
     }
 
     { id: "wide.f32x4.angles", tier: quick, label: "complete",
-      func: "impl SignedAngle / UnsignedAngle / AngleEq / HalfRotation / FullRotation for f32x4 [angle/wide.rs]",
-      desc: "W7 for every f32 angle with |x| <= 2^20 in two lanes: both normal forms are bit-identical to the scalar impl_angle_float! forms, angle_eq's mask lane is set iff the scalar angle_eq holds, the rotation constants are 180/360 in every lane" }
-    #[kani::stub(safe_arch::cmp_eq_mask_m128, stubs::eq)]
+      func: "impl SignedAngle / UnsignedAngle / HalfRotation / FullRotation for f32x4 [angle/wide.rs]",
+      desc: "W7 for every f32 angle with |x| <= 2^20 in one lane (the other lanes hold 180, -180 and 540, the values where floor- and ceil-based forms differ): both normal forms are bit-identical to the scalar impl_angle_float! forms in every lane; the rotation constants are 180/360 in every lane" }
+    #[kani::stub(safe_arch::add_m128, stubs::add)]
+    #[kani::stub(safe_arch::sub_m128, stubs::sub)]
+    #[kani::stub(safe_arch::mul_m128, stubs::mul)]
+    #[kani::stub(safe_arch::div_m128, stubs::div)]
     fn w_angles_f32x4(g) {
-        let (p, q) = (g.f32(), g.f32());
-        let (r, s) = (g.f32(), g.f32());
-        g.assume(p.abs() <= 1048576.0 && q.abs() <= 1048576.0 && r.abs() <= 1048576.0 && s.abs() <= 1048576.0);
-        cov!(g, p > 400.0 && q < -400.0);
-        let a = [p, q, 180.0, -180.0];
-        let b = [r, s, 540.0, 180.0];
-        let (va, vb) = (f32x4::from(a), f32x4::from(b));
+        let p = g.f32();
+        g.assume(p.abs() <= 1048576.0);
+        cov!(g, p > 400.0);
+        let a = [p, 180.0, -180.0, 540.0];
+        let va = f32x4::from(a);
         let sg: [f32; 4] = SignedAngle::normalize_signed_angle(va).into();
         let us: [f32; 4] = UnsignedAngle::normalize_unsigned_angle(va).into();
-        let eq = bits4(AngleEq::angle_eq(&va, &vb));
         for i in 0..4 {
             ob!("W7.signed_normal_form", same32(sg[i], SignedAngle::normalize_signed_angle(a[i])));
             ob!("W7.unsigned_normal_form", same32(us[i], UnsignedAngle::normalize_unsigned_angle(a[i])));
-            ob!("W7.angle_eq", eq[i] == if AngleEq::angle_eq(&a[i], &b[i]) { u32::MAX } else { 0 });
         }
         ob!("W7.rotations", bits4(<f32x4 as HalfRotation>::half_rotation()) == [180f32.to_bits(); 4] && bits4(<f32x4 as FullRotation>::full_rotation()) == [360f32.to_bits(); 4]);
+    }
+
+    { id: "wide.f32x4.angle_eq", tier: thorough, label: "complete",
+      func: "impl AngleEq for f32x4 [angle/wide.rs]",
+      desc: "W7 for every pair of f32 angles with |x| <= 2^20 in one lane (the other lanes: 180 vs 540, -180 vs 180, 0 vs 360): the mask lane of angle_eq is set iff the scalar angle_eq holds" }
+    #[kani::stub(safe_arch::cmp_eq_mask_m128, stubs::eq)]
+    #[kani::stub(safe_arch::add_m128, stubs::add)]
+    #[kani::stub(safe_arch::sub_m128, stubs::sub)]
+    #[kani::stub(safe_arch::mul_m128, stubs::mul)]
+    #[kani::stub(safe_arch::div_m128, stubs::div)]
+    fn w_angle_eq_f32x4(g) {
+        let (p, r) = (g.f32(), g.f32());
+        g.assume(p.abs() <= 1048576.0 && r.abs() <= 1048576.0);
+        cov!(g, p > 400.0 && r < -400.0);
+        let a = [p, 180.0, -180.0, 0.0];
+        let b = [r, 540.0, 180.0, 360.0];
+        let eq = bits4(AngleEq::angle_eq(&f32x4::from(a), &f32x4::from(b)));
+        for i in 0..4 {
+            ob!("W7.angle_eq", eq[i] == if AngleEq::angle_eq(&a[i], &b[i]) { u32::MAX } else { 0 });
+        }
+    }
+
+    { id: "wide.f32x4.angle_eq_whole_turns", tier: quick, label: "complete",
+      func: "impl AngleEq for f32x4 [angle/wide.rs]",
+      desc: "W7 on the lanes that matter for whole turns (concrete: 180 vs 540, -180 vs 180, 0 vs 360, 90 vs 91 and a lane shifted by a symbolic number of turns): the mask lane of angle_eq is set iff the scalar angle_eq holds; the full-domain form is the thorough-tier obligation wide.f32x4.angle_eq" }
+    #[kani::stub(safe_arch::cmp_eq_mask_m128, stubs::eq)]
+    #[kani::stub(safe_arch::add_m128, stubs::add)]
+    #[kani::stub(safe_arch::sub_m128, stubs::sub)]
+    #[kani::stub(safe_arch::mul_m128, stubs::mul)]
+    #[kani::stub(safe_arch::div_m128, stubs::div)]
+    fn w_angle_eq_consts_f32x4(g) {
+        let k = g.u8();
+        cov!(g, k > 3);
+        let a = [180.0f32, -180.0, 0.0, 90.0];
+        let b = [540.0f32, 180.0, 360.0 * (k as f32), 91.0];
+        let eq = bits4(AngleEq::angle_eq(&f32x4::from(a), &f32x4::from(b)));
+        for i in 0..4 {
+            ob!("W7.angle_eq", eq[i] == if AngleEq::angle_eq(&a[i], &b[i]) { u32::MAX } else { 0 });
+        }
     }
 
     { id: "wide.f32x4.arrays_and_constants", tier: quick, label: "complete",
@@ -212,6 +262,9 @@ harnesses! { REG_W, "C17", "c17";
       func: "impl Hypot / Powu / Powi for f32x4 [num/wide.rs], num::pow",
       desc: "W9 (structural, lanes restricted to small integers so that CBMC can compare the multipliers): hypot lane == root(x*x + y*y) for the dependency's lane-wise square root; powu/powi with exponents 0..3 equal the repeated product in every lane" }
     #[kani::stub(safe_arch::sqrt_m128, stubs::sqrt)]
+    #[kani::stub(safe_arch::add_m128, stubs::add)]
+    #[kani::stub(safe_arch::mul_m128, stubs::mul)]
+    #[kani::stub(safe_arch::div_m128, stubs::div)]
     fn w_hypot_pow_f32x4(g) {
         let sm = |g: &mut G| -> [f32; 4] { [(g.u8() as i8) as f32, (g.u8() as i8) as f32, (g.u8() as i8) as f32, (g.u8() as i8) as f32] };
         let (a, b) = (sm(g), sm(g));
@@ -306,6 +359,7 @@ harnesses! { REG_W, "C17", "c17";
     { id: "wide.f64x2.recip", tier: quick, label: "bounded(lane values: integers 1..=255)",
       func: "impl Recip for f64x2 [num/wide.rs]",
       desc: "W9 (structural, lanes restricted to small integers): recip lane == 1/x in both lanes" }
+    #[kani::stub(safe_arch::div_m128d, stubs::divd)]
     fn w_recip_f64x2(g) {
         let a = [g.u8() as f64, g.u8() as f64];
         g.assume(a[0] >= 1.0 && a[1] >= 1.0);
